@@ -551,11 +551,20 @@ fn run(args: &Args) -> i32 {
                 let mut remove: Vec<u32> = Vec::new();
                 let gen_provs = |rng: &mut Rng, cust: u32| -> Vec<u32> {
                     let mut ps: Vec<u32> = Vec::new();
-                    match rng.weighted(&[74, 8, 9, 9]) {
+                    match rng.weighted(&[62, 8, 9, 21]) {
                         0 => { for p in providers { if rng.chance(50) { ps.push(p) } } if ps.is_empty() { ps.push(65000) } if rng.chance(30) { ps.reverse() } }
                         1 => {}
                         2 => { ps.push(*rng.pick(&providers)); ps.push(cust); if rng.chance(50) { ps.reverse() } }
-                        _ => { let p = *rng.pick(&providers); ps.push(p); ps.push(65003); ps.push(p); }
+                        _ => { // a repeated provider: adjacent, or with one or two others in between, at either end
+                            let p = *rng.pick(&providers);
+                            let others: Vec<u32> = providers.iter().cloned().filter(|q| *q != p).collect();
+                            match rng.below(4) {
+                                0 => { ps.push(p); ps.push(p); ps.push(*rng.pick(&others)); }
+                                1 => { ps.push(p); ps.push(*rng.pick(&others)); ps.push(p); }
+                                2 => { ps.push(others[0]); ps.push(p); ps.push(others[1]); ps.push(p); }
+                                _ => { ps.push(p); ps.push(others[0]); ps.push(others[1]); ps.push(p); }
+                            }
+                        }
                     }
                     ps
                 };
